@@ -307,10 +307,16 @@ theorem memOK_fipAssignEvent (h : MemOK s) (e : Event) : MemOK (fipAssignEvent s
     · next hin => exact memOK_memAlloc h _ hin
     · exact h
 
-theorem memOK_fipUnassignEvent (h : MemOK s) (e : Event) : MemOK (fipUnassignEvent s e).1 := by
-  unfold fipUnassignEvent
+theorem memOK_fipUnassignEventG (chk : Bool) (h : MemOK s) (e : Event) : MemOK (fipUnassignEventG chk s e).1 := by
+  unfold fipUnassignEventG
   split
   · exact h
-  · next r hal => exact memOK_memFree h hal
+  · next r hal =>
+    split
+    · exact h
+    · exact memOK_memFree h hal
+
+theorem memOK_fipUnassignEvent (h : MemOK s) (e : Event) : MemOK (fipUnassignEvent s e).1 :=
+  memOK_fipUnassignEventG _ h e
 
 end Galaxy.Ipam
